@@ -265,7 +265,7 @@ func checkC07(c *Ctx, r *Report) {
 				fmt.Sprintf("arguments derive from {%s}; the gate must be given the configured package mtime (Info.MTime) or the entry mtime so that the clock fallback is dead once an mtime is configured", strings.Join(p.fields(), ",")))
 		})
 	}
-	r.Floor("T1-gate-arg", gateCalls, 15)
+	r.Floor("T1-gate-arg", gateCalls, 8)
 
 	// ---- T1 entry mtime defaulting ----
 	checkEntryMtimeDefault(c, r, pa)
@@ -290,7 +290,7 @@ func checkC07(c *Ctx, r *Report) {
 
 	// ---- T2 ----
 	n := checkMapRanges(c, r, "T2", func(fn *ssa.Function) bool { return true })
-	r.Floor("T2", n, 10)
+	r.Floor("T2", n, 6)
 
 	// ---- T4 / T5 ----
 	for _, h := range scanCompressorHeaderStores(fns) {
@@ -316,7 +316,16 @@ func checkEntryMtimeDefault(c *Ctx, r *Report, pa *provAnalysis) {
 		return
 	}
 	ok := false
+	// the call may sit in a thin wrapper that np uses (`return files.Prepare...`)
+	scan := []*ssa.Function{np}
 	forEachInstr(np, func(in ssa.Instruction) {
+		if call, isC := in.(*ssa.Call); isC {
+			if sc := call.Call.StaticCallee(); sc != nil && returnsResultOf(sc, fp, 0) {
+				scan = append(scan, sc)
+			}
+		}
+	})
+	forEachInstrIn(scan, func(in ssa.Instruction) {
 		call, isC := in.(*ssa.Call)
 		if !isC || call.Call.StaticCallee() != fp {
 			return
